@@ -13,3 +13,5 @@ import DdoModel.Props.C10
 import DdoModel.Props.C13
 import DdoModel.Props.C17
 import DdoModel.Props.C18
+import DdoModel.Fringe
+import DdoModel.Engines.Fringe
